@@ -241,9 +241,8 @@ def m_c02(ctx, st):
     o = st["pre"]
     v = purchase_view(ctx, o, op["sender"], op["msg"]["lid"], op["msg"]["bid"])
     okd = st["outcome"] == "ok"
-    if v.get("hostile"):
-        return  # C18's domain (a hostile asset may refuse to move)
-    if v["met_strict"] and not okd:
+    if v["met_strict"] and not okd and not v.get("hostile"):
+        # (with a hostile "token" in the trade a refusal may be that token refusing to move: C18's domain)
         ctx.add("C02", "terms_met_but_refused", st["i"], "purchase refused although terms are met: %s" % st["err"][-160:])
     if okd and not v["met_loose"]:
         ctx.add("C02", "accepted_without_terms", st["i"], "purchase accepted although the terms are not met")
